@@ -39,9 +39,6 @@ Record LMI (s : sys) (gl : ledger) (a : Vote.sys) : Prop := {
             (N.to_nat pi <= length (gl t))%nat
 }.
 
-(* the combined invariant *)
-Definition CI (s : sys) (gl : ledger) : Prop :=
-  exists a, R cfg s a /\ Vote.Inv n q a /\ LMI s gl a.
 
 (* ---------------- plumbing ---------------- *)
 Lemma nth_upd_node s i x out j :
@@ -224,7 +221,7 @@ Lemma lmi_propose s gl a a' i p :
   (forall pp, In pp (Vote.leaders a') <-> In pp (Vote.leaders a)) ->
   let nd := nd_of s i in
   let x := Node (term nd) (voted nd) (rl nd) (votes nd) (log nd ++ [E (term nd) (llen (log nd) + 1) p])
-                (commit nd) (in_prevote nd) (prevotes nd) (lvs nd) in
+                (commit nd) (in_prevote nd) (prevotes nd) (lvs nd) (fin nd) (base nd) in
   LMI (upd_node s i x []) (gl_set gl (term nd) (log x)) a'.
 Proof.
   intros HR HI [H1 H2 H3 H4 H5 H6 H7 H8 H9 H10 H11] Hi Hl HL nd x. subst x. subst nd.
@@ -300,21 +297,26 @@ Lemma lmi_ae s gl a a' i x out t pi pt es :
   es = firstn (length es) (skipn (N.to_nat pi) (gl t)) ->
   (pi = 0 \/ term_at (gl t) (N.to_nat pi) = Some pt) ->
   (N.to_nat pi <= length (gl t))%nat ->
-  (pi = 0 \/ (pi <= llen (log (nd_of s i)) /\ term_at (log (nd_of s i)) (N.to_nat pi) = Some pt)) ->
+  (pi = 0 \/ (pi <= llen (log (nd_of s i)) /\ (term_at (log (nd_of s i)) (N.to_nat pi) = Some pt \/ pi <= base (nd_of s i)))) ->
   rl x = Follower -> term x = t -> term (nd_of s i) <= t ->
-  log x = append_entries es (log (nd_of s i)) ->
+  log x = append_entries (gap_refused ru) (base (nd_of s i)) es (log (nd_of s i)) ->
+  firstn (N.to_nat (base (nd_of s i))) (log (nd_of s i)) = firstn (N.to_nat (base (nd_of s i))) (gl t) ->
   (forall d t0 ldr pi0 pt0 es0 lc, ~ In (d, AE t0 ldr pi0 pt0 es0 lc) out) ->
   LMI (upd_node s i x out) gl a'.
 Proof.
-  intros HR [H1 H2 H3 H4 H5 H6 H7 H8 H9 H10 H11] Hi HL Hseg Hprev Hplen Hok Hrl Hterm Hge Hlog Hout.
+  intros HR [H1 H2 H3 H4 H5 H6 H7 H8 H9 H10 H11] Hi HL Hseg Hprev Hplen Hok Hrl Hterm Hge Hlog Hcomp Hout.
   pose proof (R_len' s a HR i Hi) as Hlen.
   set (A := log (nd_of s i)) in *.
   assert (Hp : (N.to_nat pi <= length A)%nat).
   { destruct Hok as [->|[Hle _]]; [cbn; lia|unfold llen in Hle; lia]. }
   assert (Hag : firstn (N.to_nat pi) A = firstn (N.to_nat pi) (gl t)).
-  { destruct Hok as [->|[_ Ht]]; [reflexivity|].
-    destruct Hprev as [->|Ht']; [reflexivity|]. eapply LM_agree; [apply H3|apply H4|exact Ht|exact Ht']. }
-  destruct (append_entries_LM gl es A (N.to_nat pi) (gl t) (H1 i) (H2 t) (H3 i) (H4 t) Hp Hag Hseg)
+  { destruct Hok as [->|[_ [Ht|Hb]]]; [reflexivity| |].
+    - destruct Hprev as [->|Ht']; [reflexivity|]. eapply LM_agree; [apply H3|apply H4|exact Ht|exact Ht'].
+    - (* prev entry compacted away: the compacted prefix agrees with the leader's ledger *)
+      replace (firstn (N.to_nat pi) A) with (firstn (N.to_nat pi) (firstn (N.to_nat (base (nd_of s i))) A))
+        by (rewrite firstn_firstn; f_equal; lia).
+      rewrite Hcomp, firstn_firstn. f_equal. lia. }
+  destruct (append_entries_LM gl (gap_refused ru) (base (nd_of s i)) es A (N.to_nat pi) (gl t) (H1 i) (H2 t) (H3 i) (H4 t) Hp Hag Hseg Hcomp)
     as [WA' [LA' [_ [_ Shape]]]].
   rewrite <- Hlog in *.
   constructor.
@@ -406,298 +408,44 @@ Proof.
 Qed.
 
 
-(* ---------------- one global step preserves the combined invariant ---------------- *)
 Lemma inv_step01 a a' : Vote.Inv n q a -> step01 cfg a a' -> Vote.Inv n q a'.
 Proof. intros HI [->|St]; [exact HI|eapply Vote.step_inv; eauto]. Qed.
 
-Lemma ci_frame s gl o i x out :
-  CI s gl -> fst (gstep cfg ru s o) = upd_node s i x out -> i < n_nodes cfg ->
-  K1 (nd_of s i) x ->
-  (forall a d t ldr pi pt es lc, R cfg s a -> Vote.Inv n q a -> LMI s gl a -> In (d, AE t ldr pi pt es lc) out ->
-     In (N.to_nat t, N.to_nat i) (Vote.leaders a) /\
-     es = firstn (length es) (skipn (N.to_nat pi) (gl t)) /\
-     (pi = 0 \/ term_at (gl t) (N.to_nat pi) = Some pt) /\ (N.to_nat pi <= length (gl t))%nat) ->
-  CI (upd_node s i x out) gl.
-Proof.
-  intros [a [HR [HI HL]]] E Hi [Klog [Kterm [KL KC]]] Hout.
-  destruct (sim_step cfg ru quorum_ok s a o HR) as [a' [S01 HR']]. rewrite E in HR'.
-  exists a'. split; [exact HR'|]. split; [eapply inv_step01; eauto|].
-  eapply lmi_frame; eauto.
-  - eapply leaders_same; eauto. intros j Hj Hl Hc.
-    rewrite nth_upd_node in Hl by (eapply R_len'; eauto). destruct (N.eqb_spec j i) as [->|]; [|congruence].
-    destruct (KL Hl) as [Hl' _]. congruence.
-Qed.
-
-Lemma ci_ae s gl o i x out t pi pt es :
-  CI s gl -> fst (gstep cfg ru s o) = upd_node s i x out -> i < n_nodes cfg ->
-  (forall a, LMI s gl a ->
-     es = firstn (length es) (skipn (N.to_nat pi) (gl t)) /\
-     (pi = 0 \/ term_at (gl t) (N.to_nat pi) = Some pt) /\ (N.to_nat pi <= length (gl t))%nat) ->
-  (pi = 0 \/ (pi <= llen (log (nd_of s i)) /\ term_at (log (nd_of s i)) (N.to_nat pi) = Some pt)) ->
-  rl x = Follower -> term x = t -> term (nd_of s i) <= t ->
-  log x = append_entries es (log (nd_of s i)) ->
-  (forall d t0 ldr pi0 pt0 es0 lc, ~ In (d, AE t0 ldr pi0 pt0 es0 lc) out) ->
-  CI (upd_node s i x out) gl.
-Proof.
-  intros [a [HR [HI HL]]] E Hi Hmsg Hok Hrl Hterm Hge Hlog Hout.
-  destruct (sim_step cfg ru quorum_ok s a o HR) as [a' [S01 HR']]. rewrite E in HR'.
-  exists a'. split; [exact HR'|]. split; [eapply inv_step01; eauto|].
-  destruct (Hmsg a HL) as [M1 [M2 M3]].
-  eapply lmi_ae; eauto.
-  eapply leaders_same; eauto. intros j Hj Hl Hc.
-  rewrite nth_upd_node in Hl by (eapply R_len'; eauto). destruct (N.eqb_spec j i) as [->|]; congruence.
-Qed.
-
-Lemma ci_propose s gl o i p :
-  CI s gl -> i < n_nodes cfg -> rl (nd_of s i) = Leader ->
-  let nd := nd_of s i in
-  let x := Node (term nd) (voted nd) (rl nd) (votes nd) (log nd ++ [E (term nd) (llen (log nd) + 1) p])
-                (commit nd) (in_prevote nd) (prevotes nd) (lvs nd) in
-  fst (gstep cfg ru s o) = upd_node s i x [] ->
-  exists gl', CI (upd_node s i x []) gl'.
-Proof.
-  intros [a [HR [HI HL]]] Hi Hl nd x E.
-  destruct (sim_step cfg ru quorum_ok s a o HR) as [a' [S01 HR']]. rewrite E in HR'.
-  exists (gl_set gl (term nd) (log x)), a'. split; [exact HR'|]. split; [eapply inv_step01; eauto|].
-  apply (lmi_propose s gl a a'); auto.
-  eapply leaders_same; eauto. intros j Hj Hlj Hc.
-  rewrite nth_upd_node in Hlj by (eapply R_len'; eauto). destruct (N.eqb_spec j i) as [->|]; [|congruence].
-  congruence.
-Qed.
-
-Lemma ci_leader s gl o i x :
-  CI s gl -> fst (gstep cfg ru s o) = upd_node s i x [] -> i < n_nodes cfg ->
-  rl (nd_of s i) = Candidate -> rl x = Leader -> log x = log (nd_of s i) -> term x = term (nd_of s i) ->
-  exists gl', CI (upd_node s i x []) gl'.
-Proof.
-  intros [a [HR [HI HL]]] E Hi Hc Hl Hlog Hterm.
-  destruct (sim_step cfg ru quorum_ok s a o HR) as [a' [S01 HR']]. rewrite E in HR'.
-  pose proof (inv_step01 _ _ HI S01) as HI'.
-  exists (gl_set gl (term x) (log x)), a'. split; [exact HR'|]. split; [exact HI'|].
-  apply (lmi_leader s gl a (upd_node s i x []) a' i x); auto.
-  - apply leaders_mono. exact S01.
-  - intros [t j] Hin. destruct S01 as [->|St]; [right; exact Hin|].
-    destruct (Vote.step_leaders_new _ _ _ _ St _ _ Hin) as [H|[Hj [L' [T' [C0 _]]]]]; [right; exact H|].
-    assert (Hjn : N.of_nat j < n_nodes cfg) by (fold n in Hj; lia).
-    pose proof (R_nodes _ _ _ HR' (N.of_nat j) Hjn) as E'. rewrite Nat2N.id in E'. rewrite E' in L', T'.
-    pose proof (R_nodes _ _ _ HR (N.of_nat j) Hjn) as E0. rewrite Nat2N.id in E0. rewrite E0 in C0.
-    rewrite nth_upd_node in L', T' by (eapply R_len'; eauto).
-    destruct (N.eqb_spec (N.of_nat j) i) as [Eji|Hne].
-    + left. cbn in T'. subst t. f_equal. lia.
-    + exfalso. cbn in L', C0. destruct (rl (nd_of s (N.of_nat j))); cbn in *; discriminate.
-Qed.
-
+(* the leader sends entries only together with a prev entry that is still in its log *)
+Hypothesis need_prev : entries_need_prev ru = true.
 
 (* what a leader sends to a peer is a segment of its own log *)
 Lemma entries_for_ok nd p : WI (log nd) ->
-  let '(pi, pt, es) := entries_for nd p in
+  let '(pi, pt, es) := entries_for ru nd p in
   es = firstn (length es) (skipn (N.to_nat pi) (log nd)) /\
   (pi = 0 \/ term_at (log nd) (N.to_nat pi) = Some pt) /\ (N.to_nat pi <= length (log nd))%nat.
 Proof.
   intros W. unfold entries_for.
   set (next := match lvs nd with Some ls => match aget (next_index ls) p with Some x => x | None => 1 end | None => 1 end).
-  clearbody next. set (L := log nd) in *.
-  assert (Es : forall k, (match nth_entry L next with Some _ => skipn k L | None => [] end) =
-               firstn (length (match nth_entry L next with Some _ => skipn k L | None => [] end))
-                      (match nth_entry L next with Some _ => skipn k L | None => [] end)).
-  { intros k. symmetry. apply firstn_all. }
+  clearbody next. set (L := log nd) in *. set (b := base nd) in *. clearbody b.
+  assert (Lk : forall i e, lookup b L i = Some e -> nth_entry L i = Some e).
+  { intros i e. unfold lookup. destruct (N.leb i b); [discriminate|auto]. }
   destruct (N.leb_spec next 1) as [Hle|Hgt].
   - cbn [N.to_nat]. split; [|split; [left; reflexivity|lia]].
-    destruct (nth_entry L next) as [e|] eqn:En; [|reflexivity].
+    destruct (lookup b L next) as [e|] eqn:En; [|reflexivity].
+    apply Lk in En.
     assert (next = 1). { unfold nth_entry in En. destruct (N.eqb_spec next 0); [discriminate|lia]. }
     subst next. cbn. symmetry. apply firstn_all.
-  - destruct (nth_entry L (next - 1)) as [e|] eqn:Ep.
-    + rewrite nth_entry_ent_at in Ep. pose proof (W _ _ Ep) as Hidx. pose proof (ent_at_some_len _ _ _ Ep) as [_ Hl].
+  - destruct (lookup b L (next - 1)) as [e|] eqn:Ep.
+    + apply Lk in Ep.
+      rewrite nth_entry_ent_at in Ep. pose proof (W _ _ Ep) as Hidx. pose proof (ent_at_some_len _ _ _ Ep) as [_ Hl].
       assert (Epi : N.to_nat (eidx e) = N.to_nat (next - 1)) by lia.
       split; [|split].
-      * rewrite Epi. destruct (nth_entry L next); [|reflexivity]. symmetry. apply firstn_all.
+      * rewrite Epi. destruct (lookup b L next); [|reflexivity]. symmetry. apply firstn_all.
       * right. unfold term_at. rewrite Epi, Ep. reflexivity.
       * lia.
-    + cbn [N.to_nat]. split; [|split; [left; reflexivity|lia]].
-      destruct (nth_entry L next) as [e|] eqn:En; [|reflexivity]. exfalso.
-      rewrite nth_entry_ent_at in Ep, En. pose proof (ent_at_some_len _ _ _ En) as [_ Hl].
-      unfold ent_at in Ep. destruct (N.to_nat (next - 1)) as [|k] eqn:Ek; [lia|].
-      apply nth_error_None in Ep. lia.
+    + rewrite need_prev. cbn [N.to_nat]. split; [reflexivity|split; [left; reflexivity|lia]].
 Qed.
 
 Lemma init_nodes_len : length (nodes (init_sys cfg)) = n.
 Proof. unfold init_sys. cbn. rewrite map_length. unfold N_seq. apply N_seq_from_len. Qed.
 
-(* the follower's prev-entry test accepts only a matching term *)
-Hypothesis prev_sound : forall xt pt, prev_ok ru xt pt = true -> xt = pt.
-
-Theorem ci_step : forall s gl o, CI s gl -> exists gl', CI (fst (gstep cfg ru s o)) gl'.
-Proof.
-  intros s gl o HC.
-  assert (Stay : exists gl', CI s gl') by (exists gl; exact HC).
-  destruct o as [i|i|i|i|i p ok|k ok|i|i ok]; cbn [gstep].
-  - (* GElect *)
-    unfold valid_id. destruct (N.ltb_spec i (n_nodes cfg)) as [Hi|]; cbn [fst]; [|exact Stay].
-    exists gl. eapply (ci_frame s gl (GElect i)); eauto.
-    + cbn [gstep]. unfold valid_id. destruct (N.ltb_spec i (n_nodes cfg)); [reflexivity|lia].
-    + apply K1_elect.
-    + intros a d t ldr pi pt es lc _ _ _ Hin. exfalso. unfold rv_msgs in Hin. destruct (last_info _) as [x y].
-      apply in_map_iff in Hin. destruct Hin as [? [E _]]. discriminate.
-  - (* GPreVote *)
-    unfold valid_id. destruct (N.ltb_spec i (n_nodes cfg)) as [Hi|]; cbn [fst]; [|exact Stay].
-    exists gl. eapply (ci_frame s gl (GPreVote i)); eauto.
-    + cbn [gstep]. unfold valid_id. destruct (N.ltb_spec i (n_nodes cfg)); [reflexivity|lia].
-    + apply K1_same; reflexivity.
-    + intros a d t ldr pi pt es lc _ _ _ Hin. exfalso. unfold pv_msgs in Hin. destruct (last_info _) as [x y].
-      apply in_map_iff in Hin. destruct Hin as [? [E _]]. discriminate.
-  - (* GRequestVotes *)
-    unfold valid_id. destruct (N.ltb_spec i (n_nodes cfg)) as [Hi|]; cbn [fst]; [|exact Stay].
-    destruct (rl (nd_of s i)) eqn:Er; try exact Stay.
-    exists gl. eapply (ci_frame s gl (GRequestVotes i)); eauto.
-    + cbn [gstep]. unfold valid_id. destruct (N.ltb_spec i (n_nodes cfg)); [|lia]. rewrite Er. reflexivity.
-    + apply K1_refl.
-    + intros a d t ldr pi pt es lc _ _ _ Hin. exfalso. unfold rv_msgs in Hin. destruct (last_info _) as [x y].
-      apply in_map_iff in Hin. destruct Hin as [? [E _]]. discriminate.
-  - (* GHeartbeat *)
-    unfold valid_id. destruct (N.ltb_spec i (n_nodes cfg)) as [Hi|]; cbn [fst]; [|exact Stay].
-    exists gl. eapply (ci_frame s gl (GHeartbeat i)); eauto.
-    + cbn [gstep]. unfold valid_id. destruct (N.ltb_spec i (n_nodes cfg)); [reflexivity|lia].
-    + apply K1_refl.
-    + intros a d t ldr pi pt es lc HR HI HL Hin. unfold heartbeat_msgs in Hin.
-      destruct (rl (nd_of s i)) eqn:Er; try contradiction.
-      apply in_map_iff in Hin. destruct Hin as [p [E _]].
-      pose proof (entries_for_ok (nd_of s i) p (lm_wi_log _ _ _ HL i)) as Hok.
-      destruct (entries_for (nd_of s i) p) as [[pi0 pt0] es0]. injection E as <- <- <- <- <- <- <-.
-      rewrite <- (lm_L3 _ _ _ HL i Hi Er). split; [|exact Hok].
-      pose proof (Vote.I7 _ _ _ HI (N.to_nat i)) as G. rewrite (R_nodes _ _ _ HR i Hi) in G. cbn in G.
-      rewrite Er in G. apply G. reflexivity.
-  - (* GPropose *)
-    unfold valid_id. destruct (N.ltb_spec i (n_nodes cfg)) as [Hi|]; cbn [fst]; [|exact Stay].
-    unfold propose. destruct (rl (nd_of s i)) eqn:Er.
-    1,2: exists gl; eapply (ci_frame s gl (GPropose i p ok)); eauto;
-      [cbn [gstep]; unfold valid_id; destruct (N.ltb_spec i (n_nodes cfg)); [|lia]; unfold propose; rewrite Er; reflexivity
-      |apply K1_refl|intros ? ? ? ? ? ? ? ? _ _ _ []].
-    destruct ok.
-    + rewrite <- Er. apply (ci_propose s gl (GPropose i p true) i p HC Hi Er).
-      cbn [gstep]. unfold valid_id. destruct (N.ltb_spec i (n_nodes cfg)); [|lia]. unfold propose. rewrite Er. reflexivity.
-    + exists gl. eapply (ci_frame s gl (GPropose i p false)); eauto;
-      [cbn [gstep]; unfold valid_id; destruct (N.ltb_spec i (n_nodes cfg)); [|lia]; unfold propose; rewrite Er; reflexivity
-      |apply K1_refl|intros ? ? ? ? ? ? ? ? _ _ _ []].
-  - (* GDeliver *)
-    destruct (nth_error (pool s) (N.to_nat k)) as [[[src dst] m]|] eqn:Ek; cbn [fst]; [|exact Stay].
-    pose proof (nth_error_In _ _ Ek) as Hin.
-    assert (Hdst : dst < n_nodes cfg).
-    { destruct HC as [a [HR _]]. apply (R_ids _ _ _ HR _ _ _ Hin). }
-    unfold valid_id. destruct (N.ltb_spec dst (n_nodes cfg)) as [_|]; [|lia]. cbn [fst].
-    assert (Eg : forall s', deliver cfg ru s src dst m ok = s' -> fst (gstep cfg ru s (GDeliver k ok)) = s').
-    { intros s' <-. cbn [gstep]. rewrite Ek. unfold valid_id. destruct (N.ltb_spec dst (n_nodes cfg)); [reflexivity|lia]. }
-    set (nd := nd_of s dst) in *.
-    destruct m as [t cand lli llt|t g voter|t cand lli llt|t g voter|t ldr pi pt es lc|t succ fol mi]; cbn [deliver] in *; cbv zeta in *; fold nd in Eg |- *.
-    + (* RV *)
-      destruct (h_rv ru dst nd t cand lli llt ok) as [nd' r] eqn:Eh.
-      exists gl. eapply (ci_frame s gl (GDeliver k ok)); eauto.
-      * replace nd' with (fst (h_rv ru dst nd t cand lli llt ok)) by (rewrite Eh; reflexivity). apply h_rv_K1.
-      * intros a d t0 ldr pi pt es lc _ _ _ [E|[]]. exfalso. injection E as _ E. unfold h_rv in Eh.
-        repeat match type of Eh with context [if ?c then _ else _] => destruct c end;
-          try (destruct (last_info _) in Eh);
-          repeat match type of Eh with context [if ?c then _ else _] => destruct c end;
-          injection Eh as _ <-; discriminate.
-    + (* RVR *)
-      unfold h_rvr in *. destruct (rl nd) eqn:Er.
-      1,3: exists gl; eapply (ci_frame s gl (GDeliver k ok)); eauto; [apply K1_refl|intros ? ? ? ? ? ? ? ? _ _ _ []].
-      destruct (N.ltb_spec (term nd) t).
-      * exists gl. eapply (ci_frame s gl (GDeliver k ok)); eauto; [apply K1_follower; cbn; auto; unfold nd in *; lia|intros ? ? ? ? ? ? ? ? _ _ _ []].
-      * destruct (g && N.eqb t (term nd) && negb (memb src (votes nd))).
-        -- destruct (N.leb (quorum cfg) (llen (votes nd ++ [src]))).
-           ++ eapply (ci_leader s gl (GDeliver k ok)); eauto.
-           ++ exists gl. eapply (ci_frame s gl (GDeliver k ok)); eauto; [apply K1_same; cbn; auto|intros ? ? ? ? ? ? ? ? _ _ _ []].
-        -- exists gl. eapply (ci_frame s gl (GDeliver k ok)); eauto; [apply K1_refl|intros ? ? ? ? ? ? ? ? _ _ _ []].
-    + (* PV *)
-      unfold h_pv in *. destruct (last_info (log nd)) as [mli mlt].
-      exists gl. eapply (ci_frame s gl (GDeliver k ok)); eauto; [apply K1_refl|].
-      intros a d t0 ldr pi pt es lc _ _ _ [E|[]]. discriminate.
-    + (* PVR *)
-      exists gl. eapply (ci_frame s gl (GDeliver k ok)); eauto; [apply h_pvr_K1|intros ? ? ? ? ? ? ? ? _ _ _ []].
-    + (* AE *)
-      unfold h_ae in *.
-      assert (NoAE : forall tt sc mi0, forall d t0 ldr0 pi0 pt0 es0 lc0, ~ In (d, AE t0 ldr0 pi0 pt0 es0 lc0) [(src, AER tt sc dst mi0)]).
-      { intros tt sc mi0 d t0 ldr0 pi0 pt0 es0 lc0 [E|[]]. discriminate. }
-      assert (NoAE' : forall tt sc mi0, forall a d t0 ldr0 pi0 pt0 es0 lc0, R cfg s a -> Vote.Inv n q a -> LMI s gl a ->
-                 In (d, AE t0 ldr0 pi0 pt0 es0 lc0) [(src, AER tt sc dst mi0)] ->
-                 In (N.to_nat t0, N.to_nat dst) (Vote.leaders a) /\
-                 es0 = firstn (length es0) (skipn (N.to_nat pi0) (gl t0)) /\
-                 (pi0 = 0 \/ term_at (gl t0) (N.to_nat pi0) = Some pt0) /\ (N.to_nat pi0 <= length (gl t0))%nat).
-      { intros tt sc mi0 a d t0 ldr0 pi0 pt0 es0 lc0 _ _ _ [E|[]]. discriminate. }
-      set (nd1 := if N.ltb (term nd) t then step_down nd t else nd) in *.
-      assert (Hl1 : log nd1 = log nd) by (unfold nd1; destruct (N.ltb (term nd) t); reflexivity).
-      assert (Ht1 : term nd <= term nd1) by (unfold nd1; destruct (N.ltb_spec (term nd) t); cbn; lia).
-      destruct (N.eqb_spec t (term nd1)) as [Et|Hne].
-      * match goal with |- context [if ?c then _ else _] => destruct c eqn:Elok end.
-        -- (* log_ok: entries are appended *)
-           exists gl. eapply (ci_ae s gl (GDeliver k ok) dst _ _ t pi pt es); eauto.
-           ++ intros a HL. destruct (lm_M1 _ _ _ HL _ _ _ _ _ _ _ _ Hin) as [_ B]. exact B.
-           ++ rewrite Hl1 in Elok. unfold nd in *. destruct (N.eqb_spec pi 0) as [->|Hpi]; [left; reflexivity|right].
-              destruct (N.leb_spec pi (llen (log (nd_of s dst)))) as [Hle|]; [|discriminate]. split; [exact Hle|].
-              rewrite nth_entry_ent_at in Elok. unfold term_at.
-              destruct (ent_at (log (nd_of s dst)) (N.to_nat pi)) as [x|] eqn:Ex.
-              ** apply prev_sound in Elok. cbn. congruence.
-              ** exfalso. unfold ent_at in Ex. destruct (N.to_nat pi) as [|kk] eqn:Ekk; [lia|].
-                 apply nth_error_None in Ex. unfold llen in Hle. lia.
-           ++ cbn. unfold nd in *. lia.
-           ++ cbn [log]. rewrite Hl1. reflexivity.
-        -- exists gl. eapply (ci_frame s gl (GDeliver k ok)); eauto.
-           apply K1_follower; cbn; auto.
-      * exists gl. eapply (ci_frame s gl (GDeliver k ok)); eauto.
-        unfold nd1 in *. destruct (N.ltb_spec (term nd) t); [cbn in Hne; congruence|apply K1_refl].
-    + (* AER *)
-      exists gl. eapply (ci_frame s gl (GDeliver k ok)); eauto; [apply h_aer_K1|intros ? ? ? ? ? ? ? ? _ _ _ []].
-  - (* GRestart *)
-    unfold valid_id. destruct (N.ltb_spec i (n_nodes cfg)) as [Hi|]; cbn [fst]; [|exact Stay].
-    exists gl. eapply (ci_frame s gl (GRestart i)); eauto.
-    + cbn [gstep]. unfold valid_id. destruct (N.ltb_spec i (n_nodes cfg)); [reflexivity|lia].
-    + apply K1_follower; cbn; auto; lia.
-    + intros ? ? ? ? ? ? ? ? _ _ _ [].
-  - (* GTimeoutNow *)
-    unfold valid_id. destruct (N.ltb_spec i (n_nodes cfg)) as [Hi|]; cbn [fst]; [|exact Stay].
-    destruct ok; cbn [fst]; [|exact Stay].
-    exists gl. eapply (ci_frame s gl (GTimeoutNow i true)); eauto.
-    + cbn [gstep]. unfold valid_id. destruct (N.ltb_spec i (n_nodes cfg)); [reflexivity|lia].
-    + apply K1_elect.
-    + intros a d t ldr pi pt es lc _ _ _ [].
-Qed.
-
 Lemma init_node_of i : nd_of (init_sys cfg) i = init_node.
 Proof. unfold init_sys, nth_node. cbn [nodes]. apply nth_const_map. Qed.
-
-Lemma CI_init : CI (init_sys cfg) (fun _ => []).
-Proof.
-  exists Vote.init. split; [apply (R_init cfg)|]. split; [apply Vote.inv_init|].
-  constructor; intros; try rewrite init_node_of in *; cbn in *;
-    try apply WI_nil; try apply LM_nil; try contradiction; try discriminate; try congruence.
-Qed.
-
-Theorem ci_run : forall ops, exists gl, CI (grun cfg ru ops) gl.
-Proof.
-  intros ops. unfold grun.
-  assert (G : forall ops s gl, CI s gl -> exists gl', CI (fold_left (fun s o => fst (gstep cfg ru s o)) ops s) gl').
-  { induction ops0 as [|o ops0 IH]; intros s gl H; cbn [fold_left]; [eauto|].
-    destruct (ci_step s gl o H) as [gl1 H1]. eapply IH; eauto. }
-  eapply G. apply CI_init.
-Qed.
-
-(* LOG MATCHING: in every state reachable by any schedule, two logs that hold an entry of the same
-   term at a position are identical on the whole prefix up to and including that position. *)
-Theorem log_matching : forall ops i j k t,
-  let s := grun cfg ru ops in
-  term_at (log (nd_of s i)) k = Some t -> term_at (log (nd_of s j)) k = Some t ->
-  firstn k (log (nd_of s i)) = firstn k (log (nd_of s j)).
-Proof.
-  intros ops i j k t s Hi Hj. destruct (ci_run ops) as [gl [a [_ [_ HL]]]]. fold s in HL.
-  eapply LM_agree; [apply (lm_L1 _ _ _ HL i)|apply (lm_L1 _ _ _ HL j)|exact Hi|exact Hj].
-Qed.
-
-(* every log is well-indexed and holds no entry from a term beyond the node's own *)
-Theorem logs_well_formed : forall ops i,
-  let s := grun cfg ru ops in
-  WI (log (nd_of s i)) /\ forall e, In e (log (nd_of s i)) -> eterm e <= term (nd_of s i).
-Proof.
-  intros ops i s. destruct (ci_run ops) as [gl [a [_ [_ HL]]]]. fold s in HL.
-  split; [apply (lm_wi_log _ _ _ HL)|apply (lm_T1 _ _ _ HL)].
-Qed.
 
 End LMatch.
